@@ -38,6 +38,9 @@ def cases(tier, seed):
     for sc, c in common.add_algs(common.ids_scope(lvl),
                                  lambda c: common.shipped(c, lvl, "diag")):
         out.append((sc, c))
+    for sc, c in common.add_algs(common.batch_seq_scope(lvl),
+                                 common.batch_seq_algs):
+        out.append((sc, c))
     for sc, c in common.add_algs(common.wide_scope(lvl),
                                  lambda c: common.wide_algs(c, lvl)):
         out.append((sc, dict(c, delay={"mode": "choice", "arity": 3})))
